@@ -296,7 +296,17 @@ EXTRA_EXPRS = [
     '[] == ()', 'chr(97)', 'ord("a")', 'abs(-2)', 'bool("")', 'tuple([1])', 'dict(a=1)', 'dict([("a", 1)])', 'set([1, 1])', 'frozenset({1})',
     'repr("a")', 'ascii("\\xe9")', 'hex(255)', 'bin(5)', 'oct(8)', 'format(5, "03d")', 'format(5, fmt="03d")' if False else 'format(3.14159, ".2f")',
     'all([])', 'any([0, ""])', 'isinstance(1, int)', 'callable(len)', 'type(1) is int', 'hash(1)', 'id(1) == id(1)',
+    # iterator objects inside a constant: every occurrence is a fresh object that can be consumed once, and such an object is
+    # truthy whether or not it yields anything (the same inner call occurs in several different expressions on purpose)
+    'list(zip("ab", "cd"))', 'dict(zip("ab", "cd"))', 'len(tuple(zip("ab", "cd"))) == 2', 'sorted(zip("ab", "cd"), reverse=True)',
+    'list(reversed((1, 2)))', 'sum(reversed((1, 2)))', 'tuple(reversed((1, 2)))', 'list(iter((3, 4)))', 'max(iter((3, 4)))', 'set(iter((3, 4)))',
+    'list(enumerate("ab"))', 'dict(enumerate("ab"))', 'list(filter(None, (0, "", None)))', 'bool(list(filter(None, (0, "", None))))',
+    'any(filter(None, (0, "", None)))', 'list(map(abs, (-1, 2)))', 'sum(map(abs, (-1, 2)))', 'bool(zip((), (1, 2)))', 'not iter(())',
+    'bool(reversed(()))', 'list(zip((), (1, 2)))', 'len(list(zip((), (1, 2)))) == 0', 'bool(filter(None, ()))', 'list(range(0))', 'bool(range(0))',
 ]
+# iterator objects themselves (not printable: their repr holds an address), for the positions that only test or iterate them
+LAZY_EXPRS = ['zip((), (1, 2))', 'filter(None, (0, "", None))', 'reversed(())', 'iter(())', 'enumerate(())', 'map(abs, ())', 'iter((1,))',
+              'zip("ab", "cd")', 'reversed((1,))', 'enumerate("a")', 'filter(None, (0, 1))', 'range(0)', 'range(1)', 'iter("")', 'iter([])']
 
 
 def extra_part(rep: Report, stats: Dict[str, int]):
